@@ -644,21 +644,16 @@ fn range<'s>(input: &mut &'s str) -> PResult<Vec<BoundSet>, SemverParseError<&'s
     Parser::map(
         separated(0.., simple, space1),
         |bs: Vec<Option<BoundSet>>| {
-            bs.into_iter()
-                .flatten()
-                .fold(Vec::new(), |mut acc: Vec<BoundSet>, bs| {
-                    if let Some(last) = acc.pop() {
-                        if let Some(bound) = last.intersect(&bs) {
-                            acc.push(bound);
-                        } else {
-                            acc.push(last);
-                            acc.push(bs);
-                        }
-                    } else {
-                        acc.push(bs)
-                    }
-                    acc
-                })
+            // All comparators of one alternative must hold: intersect them,
+            // and drop the alternative when nothing can satisfy all of them.
+            let mut sets = bs.into_iter().flatten();
+            match sets.next() {
+                Some(first) => sets
+                    .try_fold(first, |acc, bs| acc.intersect(&bs))
+                    .into_iter()
+                    .collect(),
+                None => Vec::new(),
+            }
         },
     )
     .parse_next(input)
